@@ -51,14 +51,20 @@ class KResult:
 
 def _prepare(repo, files):
     os.makedirs(os.path.dirname(SCRATCH), exist_ok=True)
-    subprocess.run(['rsync', '-a', '--delete', '--exclude', 'target', '--exclude', '.git', repo.rstrip('/') + '/', SCRATCH + '/'],
-                   check=True)
+    # the injected files differ from /repo's by the appended `mod` line: sync into a pristine mirror first (checksum
+    # compare, changed files get the current time), then copy the mirror's changed files and re-inject
+    import synctree
+    mirror = SCRATCH + '-mirror'
+    synctree.sync(repo, mirror)
+    synctree.sync(mirror, SCRATCH + '-stage')
+    stage = SCRATCH + '-stage'
     for rel, modname, proofs in files:
-        p = os.path.join(SCRATCH, rel)
+        p = os.path.join(stage, rel)
         if not os.path.exists(p):
             raise FileNotFoundError('lost anchor: %s missing' % rel)
         with open(p, 'a') as f:
             f.write('\n#[cfg(kani)]\n#[path = "%s"]\nmod %s;\n' % (os.path.join(VERIF, 'kani', proofs), modname))
+    synctree.sync(stage, SCRATCH)
     cfg = os.path.join(SCRATCH, '.cargo')
     os.makedirs(cfg, exist_ok=True)
     with open(os.path.join(cfg, 'config.toml'), 'w') as f:
@@ -102,6 +108,32 @@ def _parse(out):
         if m:
             res[cur]['status'] = m.group(1)
     return res
+
+
+def run_groups(groups, repo='/repo', tier='quick'):
+    """Run several groups in one cargo-kani invocation (one build, one lock); returns {group: KResult}."""
+    merged = {'files': kgroups.ALLFILES, 'harnesses': [], 'timeout': 1200}
+    owner = {}
+    for gname in groups:
+        for h in kgroups.G[gname]['harnesses']:
+            merged['harnesses'].append(h)
+            owner[h['name']] = gname
+    kgroups.G['__merged__'] = merged
+    try:
+        big = run_group('__merged__', repo, tier)
+    finally:
+        del kgroups.G['__merged__']
+    out = {}
+    for gname in groups:
+        r = KResult(gname)
+        r.status, r.reason, r.cmd, r.wall_s, r.trusted, r.raw = big.status if big.status == 'undecided' else 'ok', big.reason, big.cmd, big.wall_s, big.trusted, big.raw
+        r.harnesses = [h for h in big.harnesses if owner.get(h['name']) == gname]
+        r.failures = [dict(f, unit='kani:' + gname) for f in big.failures if owner.get(f.get('harness')) == gname]
+        r.bounded = [b for b in big.bounded if owner.get(b['harness']) == gname]
+        if r.failures and r.status == 'ok':
+            r.status = 'failed'
+        out[gname] = r
+    return out
 
 
 def run_group(group, repo='/repo', tier='quick'):
